@@ -490,7 +490,7 @@ namespace {
          for (int i = 0; i < words; ++i) {
             auto w = spelled(i);
             const ipr::String& s = lex.get_string(w);
-            if (i < 8 or (i & (i - 1)) == 0 or ((i + 1) & i) == 0 or i == words / 2 or i + 1 == words) { kept.push_back(&s); text.push_back(w); }
+            kept.push_back(&s); text.push_back(w);          // every String ever returned is re-read at every checkpoint
             if ((i & (i + 1)) == 0 or i + 1 == words) {
                for (std::size_t k = 0; k < kept.size(); ++k) {
                   rep.count("transitions");
